@@ -1244,7 +1244,7 @@ def batch_py_project(job):
     for n, (seed, files, meta, twin) in enumerate(items):
         wd = os.path.join(sc, f"c05proj_{tag}_{n}")
         os.makedirs(wd, exist_ok=True)
-        run = gen_bind.run_py_project(files, wd)
+        run = gen_bind.run_py_project(files, wd, calls=meta["funcs"])
         if run["status"] != "ok":
             res["discarded"] += 1
             continue
@@ -1257,7 +1257,7 @@ def batch_py_project(job):
                 tfiles, tmeta = gen_bind.gen_py_project(seed, {k: rn["new"] for k in rn["keys"]})
                 wd2 = os.path.join(sc, f"c05proj_{tag}_{n}_r")
                 os.makedirs(wd2, exist_ok=True)
-                trun = gen_bind.run_py_project(tfiles, wd2)
+                trun = gen_bind.run_py_project(tfiles, wd2, calls=tmeta["funcs"])
                 tobs = {}
                 for t_, k_, v_ in trun.get("outputs", []):
                     tobs.setdefault(t_, []).append([k_, v_])
